@@ -22,5 +22,5 @@ def run(ctx):
     core.run_harness(ctx, "c16", 800 if th else 80, variant="asan", args=["--mode", "models"])
     core.run_harness(ctx, "c16", 640 if th else 64, variant="asan", args=["--mode", "factory"])
     ctx.min_events = {"samples_checked": 50000, "factory_calls": 600, "factory_nothing_selected": 20, "probes": 100,
-                      "pp_samples_above_5fc": 500, "pp_samples_below_fc4": 100,
+                      "pp_samples_above_5fc": 500, "pp_samples_below_fc4": 40,
                       "model.freespace": 100, "model.resistivewall": 100, "model.collimator": 100, "model.parallelplates": 100}
